@@ -12,4 +12,6 @@ def run(ck):
                         'that a minimally parenthesised expression parses to the same tree as the fully parenthesised one (needs the nom combinators themselves)']
     levels = grammar.spec_operator_tables(ck)
     grammar.spec_parse2_total(ck, levels)
+    import contracts_async  # noqa
+    grammar.spec_prefix_operators(ck)
     ck.post_filter = lambda o: o.label.startswith('C09/') or o.status in ('undecided', 'vacuous', 'inconclusive') or 'parse2' in (o.target or '')
